@@ -171,6 +171,16 @@ def r3_inverse_pair(ctx):
     call = ctx.func(EYR, "EyringParam.__call__")
     ctx.check(has(call, "return eyring_equation(self.dH, self.dS, T, constants=constants, units=units, backend=backend)"), EYR + ":EyringParam.__call__", "delegates", "EyringParam.__call__ must delegate to eyring_equation with its own dH, dS", node=call)
     ey = ctx.func(EYR, "eyring_equation")
+    for fq, f_ in ((ARR + ":arrhenius_equation", fwd), (EYR + ":eyring_equation", ey)):
+        forms_rt = []
+        for s_ in walk_shallow(f_):
+            if isinstance(s_, ast.Assign) and U(s_.targets[0]) == "RT":
+                v_ = s_.value
+                if isinstance(v_, ast.Call) and isinstance(v_.func, ast.Attribute) and v_.func.attr == "rescale":
+                    v_ = v_.func.value
+                forms_rt.append(monomial(v_))
+        ok_rt = len(forms_rt) == 2 and all(m_ == (F1, {"R": {"1": F1}, "T": {"1": F1}}) for m_ in forms_rt)
+        ctx.check(ok_rt, fq, "RT=R*T-both-arms", "RT must be R * T both with and without units; found %s" % [mono_str(m_) for m_ in forms_rt], node=f_)
     ret = [n for n in walk_shallow(ey) if isinstance(n, ast.Return)][-1]
     exps = [n for n in ast.walk(ret.value) if isinstance(n, ast.Call) and (call_name(n) or "").endswith(".exp")]
     forms = sorted(mono_str(monomial(e.args[0], env={"RT": (F1, {"R": {"1": F1}, "T": {"1": F1}})})) for e in exps)
@@ -274,6 +284,25 @@ def r5_operator_table(ctx):
         ctx.check(S(ret.value) == want, EXPR + ":" + q, "builds", "%s returns `%s`" % (q, U(ret.value)), node=ret)
     f = ctx.func(EXPR, "Expr.__add__")
     ctx.check(has(f, "_other = _implicit_conversion(other)"), EXPR + ":Expr.__add__", "converted-operand", "__add__ must convert its operand", node=f)
+    # short-circuits: `return self` only for the operator's identity element
+    identity = {
+        "Expr.__add__": {"_other.trivially_zero", "other == 0", "other == other * 0"},
+        "Expr.__sub__": {"other == other * 0", "other == 0", "_other.trivially_zero"},
+        "Expr.__mul__": {"other == 1", "1 == other"},
+        "Expr.__truediv__": {"other == 1", "1 == other"},
+        "UnaryWrapper.__truediv__": {"other == 1", "1 == other"},
+        "UnaryWrapper.__mul__": {"other == 1", "1 == other"},
+        "Expr.__pow__": {"other == 1", "1 == other"},
+    }
+    for q, accepted in identity.items():
+        fn = ctx.func(EXPR, q)
+        for r in [n for n in walk_shallow(fn) if isinstance(n, ast.Return) and U(n.value) == "self"]:
+            par = [i for i in walk_shallow(fn) if isinstance(i, ast.If) and any(x is r for x in i.body)]
+            ok = len(par) == 1 and U(par[0].test) in accepted
+            ctx.check(ok, EXPR + ":" + q, "shortcut-only-for-identity", "`return self` is allowed only when the operand is the operator's identity element (%s); guard is `%s`" % (
+                " / ".join(sorted(accepted)), U(par[0].test) if par else None), node=r)
+    ng = ctx.func(EXPR, "Expr.__neg__")
+    ctx.check(has(ng, "if isinstance(self, _NegExpr): return self.args[0]"), EXPR + ":Expr.__neg__", "double-negation", "negating a negation returns its (first and only) operand", node=ng)
     f = ctx.func(EXPR, "_BinaryExpr.__call__")
     ctx.check(has(f, "arg0, arg1 = self.all_args(variables, backend=backend, **kwargs)") and has(f, "return self._op(arg0, arg1)"), EXPR + ":_BinaryExpr.__call__", "op(arg0,arg1)", "binary nodes must evaluate _op(arg0, arg1) in order", node=f)
     f = ctx.func(EXPR, "_NegExpr.__call__")
@@ -361,6 +390,55 @@ def r7_class_formulas(ctx):
                 ok = c == -1 and len(num_) == 1 and p[num_[0]] == {"1": F1} and {k: v for k, v in p.items() if k != num_[0]} == {"R": {"1": -F1}, "T": {"1": -F1}} \
                     and linform(ast.parse(num_[0], mode="eval").body) == {"dH": F1, "T * dS": -F1}
             ctx.check(ok, a, "exponent", "EyringHS exponent must be -(dH - T*dS)/(R*T); found %s" % (U(e) if e is not None else None), node=ret)
+    # radiolytic production: density * sum_k doserate_k * G_k, yields paired with their own dose-rate keys
+    fn = ctx.func(RATES, "mk_Radiolytic._Radiolytic.__call__")
+    a = RATES + ":mk_Radiolytic._Radiolytic.__call__"
+    ret = [n for n in walk_shallow(fn) if isinstance(n, ast.Return)][-1]
+    red = [n for n in ast.walk(ret.value) if isinstance(n, ast.Call) and call_name(n) == "reduce"]
+    ok = len(red) == 1 and monomial(ret.value, atom=lambda n: "SUM" if red and n is red[0] else U(n)) == (F1, {"variables['density']": {"1": F1}, "SUM": {"1": F1}})
+    ctx.check(ok, a, "density*sum", "radiolytic rate must be density * sum(...); found %s" % U(ret.value)[:80], node=ret)
+    if ok:
+        r_ = red[0]
+        lc = r_.args[1] if len(r_.args) >= 2 else None
+        ok = U(r_.args[0]) == "add" and isinstance(lc, (ast.ListComp, ast.GeneratorExp)) and len(lc.generators) == 1 and not lc.generators[0].ifs
+        if ok:
+            g = lc.generators[0]
+            k_, g_ = target_names(g.target)
+            ok = monomial(lc.elt) == (F1, {"variables[%s]" % k_: {"1": F1}, g_: {"1": F1}}) and isinstance(g.iter, ast.Call) and call_name(g.iter) == "zip" \
+                and [U(x) for x in g.iter.args] == ["self.parameter_keys[1:]", "self.all_args(variables, backend=backend, **kwargs)"]
+        ctx.check(ok, a, "sum(doserate_k*G_k)", "the sum must run over zip(parameter_keys[1:], all arguments) with terms doserate * yield", node=ret)
+    cls_ = [n for n in ast.walk(ctx.func(RATES, "mk_Radiolytic")) if isinstance(n, ast.ClassDef) and n.name == "_Radiolytic"]
+    ok = len(cls_) == 1
+    if ok:
+        asg = {U(n.targets[0]): n.value for n in cls_[0].body if isinstance(n, ast.Assign)}
+        an, pk_ = asg.get("argument_names"), asg.get("parameter_keys")
+        ok = an is not None and pk_ is not None and has(an, "tuple(('radiolytic_yield{0}'.format('' if drn == '' else '_' + drn) for drn in doserate_names))") \
+            and has(pk_, "('density',) + tuple(('doserate{0}'.format('' if drn == '' else '_' + drn) for drn in doserate_names))")
+    ctx.check(ok, RATES + ":mk_Radiolytic", "yield_k<->doserate_k", "argument k (yield) and parameter key k+1 (dose rate) must be generated from the same dose-rate names in the same order", node=fn)
+    # temperature programmes: T0 + dTdt*t ; Tbase + Tamp*sin(angvel*t + phase)
+    fn = ctx.func(RATES, "RampedTemp.__call__")
+    ret = [n for n in walk_shallow(fn) if isinstance(n, ast.Return)][-1]
+    lf = linform(ret.value)
+    ok = len(lf) == 2 and lf.get("T0") == 1 and any(v == 1 and k != "T0" and monomial(ast.parse(k, mode="eval").body) == (F1, {"dTdt": {"1": F1}, "variables['time']": {"1": F1}}) for k, v in lf.items())
+    ctx.check(ok and has(fn, "T0, dTdt = self.all_args(variables, backend=backend, **kwargs)"), RATES + ":RampedTemp.__call__", "T0+dTdt*t", "ramped temperature must be T0 + dTdt * time; found %s" % U(ret.value), node=ret)
+    fn = ctx.func(RATES, "SinTemp.__call__")
+    ret = [n for n in walk_shallow(fn) if isinstance(n, ast.Return)][-1]
+    sins = [n for n in ast.walk(ret.value) if isinstance(n, ast.Call) and (call_name(n) or "").endswith(".sin")]
+    ok = len(sins) == 1
+    if ok:
+        v = ret.value
+        ok = isinstance(v, ast.BinOp) and isinstance(v.op, ast.Add)
+        if ok:
+            a_, b_ = (v.left, v.right) if U(v.left) == "Tbase" else (v.right, v.left)
+            ok = U(a_) == "Tbase" and monomial(b_, atom=lambda n: "SIN" if n is sins[0] else U(n)) == (F1, {"Tamp": {"1": F1}, "SIN": {"1": F1}})
+        if ok:
+            arg = sins[0].args[0]
+            ok = isinstance(arg, ast.BinOp) and isinstance(arg.op, ast.Add)
+            if ok:
+                ph, an = (arg.left, arg.right) if U(arg.left) == "phase" else (arg.right, arg.left)
+                ok = U(ph) == "phase" and monomial(_unwrap(an)) == (F1, {"angvel": {"1": F1}, "variables['time']": {"1": F1}})
+    ctx.check(ok and has(fn, "Tbase, Tamp, angvel, phase = self.all_args(variables, backend=backend, **kwargs)"), RATES + ":SinTemp.__call__", "Tbase+Tamp*sin(w*t+phase)",
+              "sinusoidal temperature must be Tbase + Tamp * sin(angvel * time + phase); found %s" % U(ret.value), node=ret)
     fn = ctx.func(RATES, "Eyring.__call__")
     ctx.check(has(fn, "T = variables['temperature']") and has(fn, "c0, c1, conc0 = self.all_args(variables, backend=backend, **kwargs)"), RATES + ":Eyring.__call__", "bindings", "Eyring must bind (c0, c1, conc0) from its arguments and T from variables['temperature']", node=fn)
     fn = ctx.func(RATES, "EyringHS.__call__")
@@ -438,6 +516,9 @@ def r9_piecewise_poly(ctx):
     ctx.check(has(po, "coeffs = args[1:]") and has(po, "x_shift = args[0]") and has(po, "x0 = x - x_shift") and has(po, "coeffs = args") and has(po, "x0 = x"), a2, "shift", "with a shift the first argument is subtracted from x and the rest are the coefficients", node=po)
     ret = [n for n in walk_shallow(po) if isinstance(n, ast.Return)][-1]
     ctx.check(U(ret.value) == "res", a2, "returns-sum", "returns %s" % U(ret.value), node=ret)
+    cp = ctx.func(EXPR, "create_Poly")
+    ctx.check(has(po, "if shift is None: coeffs = args x0 = x else: coeffs = args[1:] x_shift = args[0] x0 = x - x_shift", scope=cp), a2, "shift-arm", "without a shift all arguments are coefficients; with one the first is the shift", node=po)
+    ctx.check(has(cp, "if shift is None: argument_names = None else: argument_names = (shift, Ellipsis)"), EXPR + ":create_Poly", "shift-named-first-argument", "with a shift the first argument is named after it", node=cp)
 
 
 RULES = [
@@ -495,3 +576,10 @@ TWINS = [
     Twin("R-more-digits", [(ARR, "R = 8.314472", "R = 8.314462618")]),
     Twin("gibbs-reordered", [(THERMO, "backend.exp(dS_over_R - dH_over_R / T)", "backend.exp(-dH_over_R / T + dS_over_R)")]),
 ]
+MUTANTS.append(Mutant("constants-units-swapped", [(ARR, "self.Ea_over_R(constants, units)", "self.Ea_over_R(units, constants)")], "C16-A1", "slot:"))
+MUTANTS.append(Mutant("get_R-swapped-cross-module", [(EYR, "        R = _get_R(constants, units)\n        return", "        R = _get_R(units, constants)\n        return")], "C16-A1", "slot:"))
+MUTANTS.append(Mutant("mul-shortcut-for-non-identity", [(EXPR, "    def __mul__(self, other):\n        if other == 1:\n            return self\n        if isinstance(other, UnaryWrapper):", "    def __mul__(self, other):\n        if other != 1:\n            return self\n        if isinstance(other, UnaryWrapper):")], "C16-R5", "shortcut"))
+MUTANTS.append(Mutant("eyring-RT-divided", [(EYR, "    except AttributeError:\n        RT = R * T\n\n    try:\n        kB_over_h", "    except AttributeError:\n        RT = R / T\n\n    try:\n        kB_over_h")], "C16-R3", "RT=R*T"))
+MUTANTS.append(Mutant("radiolytic-yield-misaligned", [(RATES, "                    for k, gval in zip(\n                        self.parameter_keys[1:],", "                    for k, gval in zip(\n                        self.parameter_keys[2:],")], "C16-R7", "sum(doserate"))
+MUTANTS.append(Mutant("ramp-subtracted", [(RATES, "return T0 + dTdt * variables[\"time\"]", "return T0 - dTdt * variables[\"time\"]")], "C16-R7", "T0+dTdt*t"))
+
